@@ -63,7 +63,7 @@ static void project(struct Slot* so, int o) {
     while (it != Terminal && n < lim) {
       addr_sig = (addr_sig ^ (uint64_t)(uintptr_t)it) * 0x100000001b3ULL;
       long long tk = vt_token(vt_k, vt_nk, it);
-      if (etk == VT_PROBE && so->kind != 3) { ss[nss] = ((struct Probe*)it)->serial; nss++; }
+      if (IS_PROBE(etk) && so->kind != 3) { ss[nss] = ((struct Probe*)it)->serial; nss++; }
       if (etk == VT_BOX && so->kind != 3) { struct Probe* pp = ((struct Box*)it)->val; ss[nss] = pp ? pp->serial : -1; nss++; }
       buf[n] = tk; n++;
       it = iter_next(c, it);
@@ -120,7 +120,7 @@ static void emit(struct Slot* objs, const char* op, int o, int v, long long i, l
   ev_begin(op);
   ev_int("o", o); ev_int("v", v); ev_int("i", clamp32(i)); ev_int("n", clamp32(n)); ev_int("src", src);
   ev_str("what", what); ev_str("exc", exc); ev_str("msg", hc_msg); ev_int("r", r);
-  ev_int("own", (etk == VT_PROBE || etk == VT_BOX) ? 1 : 0);
+  ev_int("own", (IS_PROBE(etk) || etk == VT_BOX) ? 1 : 0);
   ev_int("zero", zero_tok());
   ev_ints("vals", init_vals, n_init); n_init = 0;
   ev_arr_begin("objs");
@@ -128,7 +128,7 @@ static void emit(struct Slot* objs, const char* op, int o, int v, long long i, l
   ev_arr_end();
   ev_ledger();
   /* Probe instances referenced (not owned) by Tuples are live on purpose */
-  ev_int("tupn", etk == VT_PROBE ? (long long)tup_n : 0);
+  ev_int("tupn", IS_PROBE(etk) ? (long long)tup_n : 0);
   ev_int("line", cur_line);
   ev_end();
 }
@@ -185,11 +185,11 @@ int main(int argc, char** argv) {
       ev_begin("new"); ev_int("o", o); ev_str("what", kind_name(kind)); ev_str("exc", hc_exc); ev_str("msg", hc_msg);
       for (int i = 0; i < nv; i++) init_vals[i] = hc_int(3 + i);
       ev_ints("init", init_vals, (size_t)nv);
-      ev_int("own", (etk == VT_PROBE || etk == VT_BOX) ? 1 : 0);
+      ev_int("own", (IS_PROBE(etk) || etk == VT_BOX) ? 1 : 0);
       ev_arr_begin("objs");
       for (int k = 1; k < MAXO; k++) if (objs[k].obj) project(&objs[k], k);
       ev_arr_end();
-      ev_ledger(); ev_int("tupn", etk == VT_PROBE ? (long long)tup_n : 0); ev_int("line", cur_line); ev_end();
+      ev_ledger(); ev_int("tupn", IS_PROBE(etk) ? (long long)tup_n : 0); ev_int("line", cur_line); ev_end();
       continue;
     }
     if (!so->obj && !hc_is(0, "copy")) { ev_begin("missing"); ev_int("o", o); ev_int("line", cur_line); ev_end(); continue; }   /* an earlier call failed to produce it */
@@ -404,6 +404,27 @@ int main(int argc, char** argv) {
         static char saved[64]; snprintf(saved, sizeof saved, "%s", hc_exc);
         HC_TRY(churn_ints(3000));
         if (hc_exc[0]) { static char later[96]; snprintf(later, sizeof later, "later:%s", hc_exc); hc_exc = later; } else hc_exc = saved;
+      }
+      else if (!strncmp(what, "alien_", 6)) {
+        /* an operation of a class the object's type does not implement (the object: a Table): ClassError, for every dispatcher */
+        const char* w2 = what + 6;
+        if      (!strcmp(w2, "c_str"))   HC_TRY(c_str(alien));
+        else if (!strcmp(w2, "c_int"))   HC_TRY(c_int(alien));
+        else if (!strcmp(w2, "c_float")) HC_TRY(c_float(alien));
+        else if (!strcmp(w2, "call"))    HC_TRY(call(alien));
+        else if (!strcmp(w2, "start"))   HC_TRY(start(alien));
+        else if (!strcmp(w2, "stop"))    HC_TRY(stop(alien));
+        else if (!strcmp(w2, "lock"))    HC_TRY(lock(alien));
+        else if (!strcmp(w2, "sclose"))  HC_TRY(sclose(alien));
+        else if (!strcmp(w2, "deref"))   HC_TRY(deref(alien));
+        else if (!strcmp(w2, "current")) HC_TRY(current(Table));
+        else if (!strcmp(w2, "currentelem")) HC_TRY(current(vt_type(etk)));
+        else if (!strcmp(w2, "sort"))    HC_TRY(sort(alien));
+        else if (!strcmp(w2, "push"))    HC_TRY(push(alien, e1));
+        else if (!strcmp(w2, "pop"))     HC_TRY(pop(alien));
+        else if (!strcmp(w2, "concat"))  HC_TRY(concat(alien, c));
+        else if (!strcmp(w2, "join"))    HC_TRY(join(alien));
+        else { fprintf(stderr, "unknown bad op %s\n", what); return 9; }
       }
       else if (!strncmp(what, "stack_", 6) && isT) {
         /* the Tuple as a STACK object (what tuple(...) and $(Tuple, ...) make: the header says so): every operation that would
